@@ -17,7 +17,7 @@ def main():
     mod = importlib.import_module("checks." + a.prop.lower())
     chk = mod.TheCheck(a.tier, seed)
     if a.replay:
-        sys.exit(replay(chk, a.replay))
+        sys.exit(chk.replay(a.replay) if hasattr(chk, "replay") else replay(chk, a.replay))
     sys.exit(chk.run())
 
 
